@@ -15,6 +15,7 @@ import (
 	"strconv"
 	"strings"
 	"sync"
+	"sync/atomic"
 	"syscall"
 	"time"
 )
@@ -82,6 +83,7 @@ type childResult struct {
 	log     string // path of stdout/stderr log
 	race    []RaceReport
 	wall    time.Duration
+	skipped bool // not run: too many batches of this run had hung before
 }
 
 // RunProp runs all batches of a property and returns the process exit code.
@@ -131,17 +133,36 @@ func RunProp(id string, tier Tier, seed int64, onlyBatch string) int {
 	results := make([]*childResult, len(batches))
 	var wg sync.WaitGroup
 	sem := make(chan struct{}, par)
+	// A tree on which the code under test deadlocks makes batch after batch run into its
+	// watchdog. Three hung batches end the run: the batches not started yet are skipped
+	// (inconclusive), a hung batch is not retried once a violation has been recorded. On a
+	// tree where nothing hangs this changes nothing.
+	var hung, violSeen int32
 	for i := range batches {
 		wg.Add(1)
 		sem <- struct{}{}
 		go func(i int) {
 			defer wg.Done()
 			defer func() { <-sem }()
+			if atomic.LoadInt32(&hung) >= 3 {
+				results[i] = &childResult{batch: batches[i], skipped: true}
+				return
+			}
 			r := runChild(p, batches[i], scratch, i)
-			if (r.timeout || (!r.hasSum && !batches[i].CrashOK && !isLibraryCrash(r))) && !hasViol(r) && os.Getenv("VERIF_NORETRY") == "" {
+			if hasViol(r) {
+				atomic.StoreInt32(&violSeen, 1)
+			}
+			if (r.timeout || (!r.hasSum && !batches[i].CrashOK && !isLibraryCrash(r))) && !hasViol(r) && os.Getenv("VERIF_NORETRY") == "" &&
+				!(r.timeout && (atomic.LoadInt32(&violSeen) == 1 || atomic.LoadInt32(&hung) >= 1)) {
 				// inconclusive: retry once
 				fmt.Printf("RETRY batch=%s (timeout=%v exit=%d)\n", batches[i].Name, r.timeout, r.exit)
 				r = runChild(p, batches[i], scratch, i+100000)
+				if hasViol(r) {
+					atomic.StoreInt32(&violSeen, 1)
+				}
+			}
+			if r.timeout {
+				atomic.AddInt32(&hung, 1)
 			}
 			results[i] = r
 		}(i)
@@ -350,6 +371,11 @@ func classifyCrash(log string) (sig string, lib bool) {
 }
 
 func mergeResult(a *Aggregate, r *childResult, keepLogs string) {
+	if r.skipped {
+		a.Inconclusive = append(a.Inconclusive, r.batch.Name+": not run, three batches of this run had run into their watchdog before")
+		a.Counters["inconclusive"]++
+		return
+	}
 	keep := false
 	for _, rec := range r.records {
 		switch rec.T {
